@@ -224,6 +224,11 @@ Lemma add_bcall_core : forall s,
 Proof. intros. unfold add_bcall. dm; prj; (split; [apply frame_all_refl|auto]) || apply with_eb_frame. Qed.
 Lemma end_block_core : forall s b, frame_all s (fst (end_block s b)).
 Proof. intros. unfold end_block. dm; prj; unfold frame_all, tally_core; prj; auto 15. Qed.
+Lemma export_core : forall c s,
+  tally_core s (export_import c s) /\ effects (export_import c s) = effects s /\
+  oracles (export_import c s) = oracles s /\ proposal (export_import c s) = proposal s /\
+  pending (export_import c s) = [] /\ last_total (export_import c s) = online_power (oracles s).
+Proof. intros. unfold export_import, tally_core. prj. auto 10. Qed.
 Lemma edit_core : forall s o b, tally_core s (fst (edit_bridger s o b)) /\ last_by (fst (edit_bridger s o b)) = last_by s
   /\ pending (fst (edit_bridger s o b)) = pending s /\ effects (fst (edit_bridger s o b)) = effects s.
 Proof. intros. unfold edit_bridger, tally_core. dm; prj; auto 10. Qed.
@@ -311,6 +316,7 @@ Proof.
   - apply add_bcall_core.
   - apply with_eb_frame.
   - apply end_block_core.
+  - apply export_core.
 Qed.
 
 (* in a goal about (step c s x) with x not a vote: bring the frame facts into the context *)
@@ -678,6 +684,8 @@ Proof.
     unfold end_block. destruct (EB.slashing slash_args0 (xstate_of s) (e_height (eb s))) as [r|]; prj; [|unfold inv_total; auto].
     destruct (apply_slash_facts (EB.r_oracles r) (oracles s)) as [A B].
     unfold inv_total; prj. destruct (EB.r_any r), newset; repeat split; auto; try rewrite A; auto; lia.
+  - (* export + import: the records are written first, the total is recomputed afterwards *)
+    unfold export_import, inv_total; prj. repeat split; auto. lia.
 Qed.
 
 Lemma inv_total_reach : forall c h, 0 <= c_threshold c -> inv_total (run c init h).
@@ -742,9 +750,65 @@ Proof.
   - destruct (o =? k) eqn:E; auto. apply Z.eqb_eq in E. subst. rewrite R. reflexivity.
 Qed.
 
-Lemma inv_bridger_step : forall c s x, inv_bridger s -> inv_bridger (fst (step c s x)).
+Lemma In_NoDup_aget : forall (l : list (Z * oracle)) k v, NoDup (map fst l) -> In (k, v) l -> aget Z.eqb k l = Some v.
 Proof.
-  intros c s x IH. destruct x; cbn [step].
+  induction l as [|[k' v'] r IH]; cbn [map fst aget]; intros k v N H; [contradiction|].
+  inversion N as [|? ? NI N']; subst. destruct H as [H|H].
+  - inversion H; subst. rewrite Z.eqb_refl. reflexivity.
+  - destruct (k =? k') eqn:E; [|apply IH; auto].
+    apply Z.eqb_eq in E. subst. exfalso. apply NI. apply in_map_iff. exists (k', v). auto.
+Qed.
+
+Lemma aget_map_index : forall (f : oracle -> Z) b o (l : list (Z * oracle)),
+  aget Z.eqb b (map (fun p : Z * oracle => (f (snd p), fst p)) l) = Some o ->
+  exists rec, In (o, rec) l /\ f rec = b.
+Proof.
+  intros f b o l. induction l as [|[k r] l IH]; cbn [map aget fst snd]; intro H; [discriminate|].
+  destruct (b =? f r) eqn:E.
+  - apply Z.eqb_eq in E. inversion H; subst. exists r. split; auto. left. reflexivity.
+  - destruct (IH H) as [rec [I F]]. exists rec. split; auto. right. exact I.
+Qed.
+
+Lemma slash_all_keys : forall l os os', slash_all os l = Some os' -> NoDup (map fst os) -> NoDup (map fst os').
+Proof.
+  induction l as [|k r IH]; cbn; intros os os' H N.
+  - inversion H; subst; auto.
+  - destruct (slash_one os k) as [os1|] eqn:E; [|discriminate]. eapply IH; eauto.
+    unfold slash_one in E. destruct (aget Z.eqb k os); [|discriminate].
+    destruct (negb (o_online o)); inversion E; subst; auto.
+    apply (NoDup_keys_aset Z.eqb zeqb_spec). exact N.
+Qed.
+
+(* the oracle store has one record per oracle address *)
+Lemma keys_step : forall c s x, NoDup (map fst (oracles s)) -> NoDup (map fst (oracles (fst (step c s x)))).
+Proof.
+  intros c s x N. destruct x; cbn [step].
+  - pose proof (vote_cases c s bridger nonce cls park members) as V. vote_inv V; [rewrite Hs | rewrite Hor | rewrite Hor]; exact N.
+  - unfold exec. dm; prj; exact N.
+  - unfold bond. dm; prj; try exact N. apply (NoDup_keys_aset Z.eqb zeqb_spec). exact N.
+  - unfold add_delegate. dm; prj; try exact N; apply (NoDup_keys_aset Z.eqb zeqb_spec); exact N.
+  - unfold slash_pass. destruct (slash_all (oracles s) os) as [os'|] eqn:E; prj; [|exact N].
+    destruct os; prj; [exact N | eapply slash_all_keys; eauto].
+  - exact N.
+  - unfold gov_set. dm; prj; try exact N. rewrite gov_map_keys. exact N.
+  - unfold unbond. dm; prj; try exact N; apply (NoDup_keys_adel Z.eqb); exact N.
+  - unfold edit_bridger. dm; prj; try exact N. apply (NoDup_keys_aset Z.eqb zeqb_spec). exact N.
+  - unfold mature; prj. destruct (mature_map_facts (oracles s)) as [A _]. rewrite A. exact N.
+  - destruct (confirm_core s kind key ext) as [_ [A _]]. rewrite A. exact N.
+  - destruct (add_batch_core s) as [_ [A _]]. rewrite A. exact N.
+  - destruct (add_bcall_core s) as [_ [A _]]. rewrite A. exact N.
+  - exact N.
+  - unfold end_block. destruct (EB.slashing slash_args0 (xstate_of s) (e_height (eb s))) as [r|]; prj; [|exact N].
+    destruct (EB.r_any r); [|exact N]. destruct (apply_slash_facts (EB.r_oracles r) (oracles s)) as [A _]. rewrite A. exact N.
+  - exact N.
+Qed.
+
+Lemma keys_reach : forall c h, NoDup (map fst (oracles (run c init h))).
+Proof. intros. apply run_inv; [constructor | intros; apply keys_step; assumption]. Qed.
+
+Lemma inv_bridger_step : forall c s x, NoDup (map fst (oracles s)) -> inv_bridger s -> inv_bridger (fst (step c s x)).
+Proof.
+  intros c s x ND IH. destruct x; cbn [step].
   - pose proof (vote_cases c s bridger nonce cls park members) as V. vote_inv V; unfold inv_bridger.
     + rewrite Hs. exact IH.
     + rewrite Hor, Hbb. exact IH.
@@ -817,6 +881,10 @@ Proof.
     rewrite (aget_map_val Z.eqb zeqb_spec
                (fun p => match eb_find (fst p) (EB.r_oracles r) with Some x => slashed_rec (snd p) x | None => snd p end)), Gr.
     eexists; split; eauto. cbn [fst snd]. destruct (eb_find o' (EB.r_oracles r)); auto.
+  - (* export + import: the bridger index is re-created from the records *)
+    intros b' o' G. unfold export_import in *. prj.
+    destruct (aget_map_index o_bridger _ _ _ G) as [rec [I F]]. exists rec. split; auto.
+    apply In_NoDup_aget; assumption.
 Qed.
 
 Theorem vote_admission : forall c h b n cl park ms,
@@ -827,8 +895,11 @@ Theorem vote_admission : forall c h b n cl park ms,
 Proof.
   intros c h b n cl park ms s H.
   destruct (vote_accept_online _ _ _ _ _ _ _ H) as [o [rec [Hb [Ho [Hon _]]]]].
-  assert (I : inv_bridger s).
-  { apply run_inv; [intros ? ? G; discriminate G | intros; apply inv_bridger_step; assumption]. }
+  assert (I : NoDup (map fst (oracles s)) /\ inv_bridger s).
+  { apply (run_inv (fun s => NoDup (map fst (oracles s)) /\ inv_bridger s)).
+    - split; [constructor | intros ? ? G; discriminate G].
+    - intros s0 x [A B]. split; [apply keys_step | apply inv_bridger_step]; assumption. }
+  destruct I as [_ I].
   destruct (I _ _ Hb) as [r [Gr Br]]. rewrite Ho in Gr. inversion Gr; subst. eauto 10.
 Qed.
 
@@ -850,7 +921,7 @@ Definition inv_exec (s : st) : Prop :=
   (forall n v, aget Z.eqb n (pending s) = Some v -> n <= last_obs s).
 
 Lemma step_other_frame : forall c s x,
-  match x with Vote _ _ _ _ _ | Exec _ _ => False | _ => True end ->
+  match x with Vote _ _ _ _ _ | Exec _ _ | ExportImport => False | _ => True end ->
   last_obs (fst (step c s x)) = last_obs s /\ pending (fst (step c s x)) = pending s /\
   effects (fst (step c s x)) = effects s.
 Proof.
@@ -901,6 +972,10 @@ Proof.
     + intros m w Gm. destruct (Z.eq_dec nonce m) as [D|D].
       * subst. rewrite (aget_adel_same Z.eqb) in Gm. discriminate.
       * rewrite (aget_adel_other Z.eqb zeqb_spec) in Gm by exact D. eapply P; eauto.
+  - (* export + import: the parked claims are not exported; nothing executed becomes executable again *)
+    cbn [step fst]. destruct (export_core c s) as [[A _] [B [_ [_ [C _]]]]]. unfold inv_exec. rewrite A, B, C.
+    split; [exact N|]. split; [|intros n v G; discriminate G].
+    intros n H. split; [reflexivity | apply E; exact H].
 Qed.
 
 Lemma inv_exec_init : inv_exec init.
@@ -1046,9 +1121,10 @@ Proof. intros. apply nodup_fixed_point. assumption. Qed.
 (* ------------------------------------------------------------------ *)
 (* no oracle counted twice — guarded by "no Unbond of an oracle whose vote is stored" *)
 (* ------------------------------------------------------------------ *)
-Definition inv_votes (s : st) : Prop :=
-  (forall k a v, aget keq k (atts s) = Some a -> In v (a_votes a) ->
-     exists e, aget Z.eqb v (last_by s) = Some e /\ fst k <= e) /\
+(* every stored voter's cursor is at or beyond the attestation's nonce (the cursor function, i.e. incl. the
+   "no entry => lastObserved-1" rule: after a genesis import only votes above lastObserved-1 have an entry) *)
+Definition inv_votes (c : cfg) (s : st) : Prop :=
+  (forall k a v, aget keq k (atts s) = Some a -> In v (a_votes a) -> fst k <= cursor c s v) /\
   (forall k a, aget keq k (atts s) = Some a -> NoDup (a_votes a)).
 
 Definition is_voter (s : st) (o : Z) : Prop :=
@@ -1066,53 +1142,115 @@ Proof.
   destruct (aget keq (n, cl) (atts s)) eqn:G; [right; eauto | contradiction].
 Qed.
 
-Lemma cursor_ge_entry : forall c s o e, aget Z.eqb o (last_by s) = Some e -> e <= cursor c s o.
+Definition dflt (lobs : Z) : Z := if 1 <=? lobs then lobs - 1 else 0.
+
+Lemma cur_ge_entry : forall c lobs lb o e, aget Z.eqb o lb = Some e -> e <= cur c lobs lb o.
 Proof.
-  intros c s o e G. unfold cursor. rewrite G.
-  destruct (c_cursor_clamp c && (1 <=? last_obs s) && (e <? last_obs s - 1)) eqn:E; [|lia].
+  intros c lobs lb o e G. unfold cur. rewrite G.
+  destruct (c_cursor_clamp c && (1 <=? lobs) && (e <? lobs - 1)) eqn:E; [|lia].
   apply andb_true_iff in E. destruct E as [_ E]. apply Z.ltb_lt in E. lia.
 Qed.
 
-Lemma inv_votes_vote_atts : forall c s n cl o,
-  inv_votes s -> n = cursor c s o + 1 ->
+Lemma cursor_ge_entry : forall c s o e, aget Z.eqb o (last_by s) = Some e -> e <= cursor c s o.
+Proof. intros. unfold cursor. apply cur_ge_entry. assumption. Qed.
+
+Lemma cur_mono_lobs : forall c lobs lobs' lb v, lobs <= lobs' -> cur c lobs lb v <= cur c lobs' lb v.
+Proof.
+  intros c lobs lobs' lb v L. unfold cur. destruct (aget Z.eqb v lb) as [n|].
+  - destruct (c_cursor_clamp c); cbn [andb];
+      destruct (1 <=? lobs) eqn:A, (1 <=? lobs') eqn:B, (n <? lobs - 1) eqn:C, (n <? lobs' - 1) eqn:D; cbn [andb]; zb; lia.
+  - destruct (1 <=? lobs) eqn:A, (1 <=? lobs') eqn:B; zb; lia.
+Qed.
+
+Lemma cur_aset_same : forall c lobs lb o n, n <= cur c lobs (aset Z.eqb o n lb) o.
+Proof. intros. apply cur_ge_entry. apply (aget_aset_same Z.eqb zeqb_spec). Qed.
+
+Lemma cur_aset_other : forall c lobs lb o n v, o <> v -> cur c lobs (aset Z.eqb o n lb) v = cur c lobs lb v.
+Proof. intros. unfold cur. rewrite (aget_aset_other Z.eqb zeqb_spec) by assumption. reflexivity. Qed.
+
+Lemma cur_adel_other : forall c lobs lb o v, o <> v -> cur c lobs (adel Z.eqb o lb) v = cur c lobs lb v.
+Proof. intros. unfold cur. rewrite (aget_adel_other Z.eqb zeqb_spec) by assumption. reflexivity. Qed.
+
+(* rebuilding the cursors from the stored votes (InitGenesis) *)
+Lemma rebuild_votes_spec : forall c lobs n votes lb,
+  (forall v, cur c lobs lb v <= cur c lobs (rebuild_votes c lobs n votes lb) v) /\
+  (forall v, In v votes -> n <= cur c lobs (rebuild_votes c lobs n votes lb) v).
+Proof.
+  intros c lobs n votes. induction votes as [|x r IH]; intro lb; cbn [rebuild_votes fold_left].
+  - split; [intro; lia | intros v []].
+  - fold (rebuild_votes c lobs n r (if cur c lobs lb x <? n then aset Z.eqb x n lb else lb)).
+    set (lb1 := if cur c lobs lb x <? n then aset Z.eqb x n lb else lb).
+    destruct (IH lb1) as [M C].
+    assert (S1 : forall v, cur c lobs lb v <= cur c lobs lb1 v).
+    { intro v. unfold lb1. destruct (cur c lobs lb x <? n) eqn:E; [|lia]. apply Z.ltb_lt in E.
+      destruct (Z.eq_dec x v) as [D|D]; [subst; pose proof (cur_aset_same c lobs lb v n); lia | rewrite cur_aset_other by exact D; lia]. }
+    assert (S2 : n <= cur c lobs lb1 x).
+    { unfold lb1. destruct (cur c lobs lb x <? n) eqn:E; [apply cur_aset_same | apply Z.ltb_ge in E; exact E]. }
+    split.
+    + intro v. specialize (S1 v). specialize (M v). lia.
+    + intros v [D|D]; [subst; specialize (M v); lia | apply C; exact D].
+Qed.
+
+Lemma rebuild_cursors_spec : forall c lobs ats lb0,
+  let lb' := fold_left (fun lb (p : (Z * Z) * att) => rebuild_votes c lobs (fst (fst p)) (a_votes (snd p)) lb) ats lb0 in
+  (forall v, cur c lobs lb0 v <= cur c lobs lb' v) /\
+  (forall k a v, In (k, a) ats -> In v (a_votes a) -> fst k <= cur c lobs lb' v).
+Proof.
+  intros c lobs ats. induction ats as [|[k0 a0] r IH]; intro lb0; cbn [fold_left].
+  - split; [intro; lia | intros k a v []].
+  - cbn [fst snd]. set (lb1 := rebuild_votes c lobs (fst k0) (a_votes a0) lb0).
+    destruct (rebuild_votes_spec c lobs (fst k0) (a_votes a0) lb0) as [M1 C1]. fold lb1 in M1, C1.
+    destruct (IH lb1) as [M C]. split.
+    + intro v. specialize (M1 v). specialize (M v). lia.
+    + intros k a v [D|D] Hv.
+      * inversion D; subst. specialize (C1 v Hv). specialize (M v). lia.
+      * eapply C; eauto.
+Qed.
+
+Lemma inv_votes_vote_atts : forall c s lobs' n cl o,
+  inv_votes c s -> n = cursor c s o + 1 -> last_obs s <= lobs' ->
   forall k a, aget keq k (aset keq (n, cl) (cast s n cl o) (atts s)) = Some a ->
-  (forall v, In v (a_votes a) -> exists e, aget Z.eqb v (aset Z.eqb o n (last_by s)) = Some e /\ fst k <= e)
+  (forall v, In v (a_votes a) -> fst k <= cur c lobs' (aset Z.eqb o n (last_by s)) v)
   /\ NoDup (a_votes a).
 Proof.
-  intros c s n cl o [I1 I2] Hn k a G.
+  intros c s lobs' n cl o [I1 I2] Hn L k a G.
   assert (CUR : forall k0 a0, aget keq k0 (atts s) = Some a0 -> In o (a_votes a0) -> fst k0 < n).
-  { intros k0 a0 G0 Hin. destruct (I1 _ _ _ G0 Hin) as [e [Ge Le]].
-    pose proof (cursor_ge_entry c s o e Ge). lia. }
+  { intros k0 a0 G0 Hin. pose proof (I1 _ _ _ G0 Hin). lia. }
+  assert (OTH : forall v, o <> v -> cursor c s v <= cur c lobs' (aset Z.eqb o n (last_by s)) v).
+  { intros v D. rewrite cur_aset_other by exact D. unfold cursor. apply cur_mono_lobs. exact L. }
   destruct (keq (n, cl) k) eqn:E.
   - apply keq_spec in E. subst k. rewrite (aget_aset_same keq keq_spec) in G. inversion G; subst a. split.
     + intros v Hv. cbn [fst]. destruct (Z.eq_dec o v) as [D|D].
-      * subst. rewrite (aget_aset_same Z.eqb zeqb_spec). eexists; split; eauto. lia.
-      * rewrite (aget_aset_other Z.eqb zeqb_spec) by exact D.
-        apply cast_votes in Hv. destruct Hv as [Hv|[a0 [G0 Hv]]]; [congruence|].
-        apply (I1 _ _ _ G0 Hv).
+      * subst. apply cur_aset_same.
+      * apply cast_votes in Hv. destruct Hv as [Hv|[a0 [G0 Hv]]]; [congruence|].
+        pose proof (I1 _ _ _ G0 Hv). pose proof (OTH v D). cbn [fst] in *. lia.
     + unfold cast. cbn [a_votes]. destruct (aget keq (n, cl) (atts s)) as [a0|] eqn:G0.
       * apply NoDup_snoc; [eapply I2; eauto|]. intro Hin. pose proof (CUR _ _ G0 Hin). cbn in *. lia.
       * cbn. constructor; [intros []|constructor].
   - apply keq_neq in E. rewrite (aget_aset_other keq keq_spec) in G by exact E. split; [|eapply I2; eauto].
     intros v Hv. destruct (Z.eq_dec o v) as [D|D].
-    + subst. rewrite (aget_aset_same Z.eqb zeqb_spec). eexists; split; eauto.
-      pose proof (CUR _ _ G Hv). lia.
-    + rewrite (aget_aset_other Z.eqb zeqb_spec) by exact D. apply (I1 _ _ _ G Hv).
+    + subst. pose proof (CUR _ _ G Hv). pose proof (cur_aset_same c lobs' (last_by s) v n). lia.
+    + pose proof (I1 _ _ _ G Hv). pose proof (OTH v D). lia.
 Qed.
 
 (* the step preserves the invariant if the code keeps the cursor on unbond (repaired variant), or if the
    operation is not an Unbond of an oracle with a stored vote *)
 Definition safe_votes (c : cfg) (s : st) (x : op) : Prop := c_unbond_del c = false \/ safe_unbond s x.
 
-Lemma inv_votes_step : forall c s x, inv_votes s -> safe_votes c s x -> inv_votes (fst (step c s x)).
+(* operations that leave attestations, cursors and the last observed nonce alone *)
+Lemma inv_votes_same : forall c s s', atts s' = atts s -> last_by s' = last_by s -> last_obs s' = last_obs s ->
+  inv_votes c s -> inv_votes c s'.
+Proof. intros c s s' A B C IH. unfold inv_votes, cursor. rewrite A, B, C. exact IH. Qed.
+
+Lemma inv_votes_step : forall c s x, inv_votes c s -> safe_votes c s x -> inv_votes c (fst (step c s x)).
 Proof.
   intros c s x IH SF. destruct x; cbn [step].
   - pose proof (vote_cases c s bridger nonce cls park members) as V. vote_inv V.
     + rewrite Hs. exact IH.
-    + unfold inv_votes. rewrite Hat, Hlb. split.
-      * intros k a v G Hv. destruct (inv_votes_vote_atts c s nonce cls o IH Hn k a G) as [A _]. auto.
-      * intros k a G. destruct (inv_votes_vote_atts c s nonce cls o IH Hn k a G) as [_ B]. auto.
-    + unfold inv_votes. rewrite Hat, Hlb.
+    + unfold inv_votes, cursor. rewrite Hat, Hlb, Hlo. split.
+      * intros k a v G Hv. destruct (inv_votes_vote_atts c s (last_obs s) nonce cls o IH Hn ltac:(lia) k a G) as [A _]. auto.
+      * intros k a G. destruct (inv_votes_vote_atts c s (last_obs s) nonce cls o IH Hn ltac:(lia) k a G) as [_ B]. auto.
+    + unfold inv_votes, cursor. rewrite Hat, Hlb, Hlo.
       assert (F : forall k a, aget keq k (prune nonce (aset keq (nonce, cls) {| a_obs := true; a_votes := a_votes (cast s nonce cls o) |}
                                  (aset keq (nonce, cls) (cast s nonce cls o) (atts s)))) = Some a ->
                  exists a0, aget keq k (aset keq (nonce, cls) (cast s nonce cls o) (atts s)) = Some a0 /\ a_votes a = a_votes a0).
@@ -1122,32 +1260,37 @@ Proof.
         - apply keq_neq in E. rewrite (aget_aset_other keq keq_spec) in G by exact E. eauto. }
       split.
       * intros k a v G Hv. destruct (F _ _ G) as [a0 [G0 EV]]. rewrite EV in Hv.
-        destruct (inv_votes_vote_atts c s nonce cls o IH Hn k a0 G0) as [A _]. auto.
+        destruct (inv_votes_vote_atts c s nonce nonce cls o IH Hn ltac:(lia) k a0 G0) as [A _]. auto.
       * intros k a G. destruct (F _ _ G) as [a0 [G0 EV]]. rewrite EV.
-        destruct (inv_votes_vote_atts c s nonce cls o IH Hn k a0 G0) as [_ B]. auto.
-  - destruct (exec_core s nonce handler_ok) as [[_ [A _]] B]. unfold inv_votes. rewrite A, B. exact IH.
-  - destruct (bond_core c s o bridger ext stake) as [[_ [A _]] [B _]]. unfold inv_votes. rewrite A, B. exact IH.
-  - destruct (add_core c s o amount) as [[_ [A _]] [B _]]. unfold inv_votes. rewrite A, B. exact IH.
-  - destruct (slash_core s os) as [[_ [A _]] [B _]]. unfold inv_votes. rewrite A, B. exact IH.
+        destruct (inv_votes_vote_atts c s nonce nonce cls o IH Hn ltac:(lia) k a0 G0) as [_ B]. auto.
+  - destruct (exec_core s nonce handler_ok) as [[L [A _]] B]. eapply inv_votes_same; eauto.
+  - destruct (bond_core c s o bridger ext stake) as [[L [A _]] [B _]]. eapply inv_votes_same; eauto.
+  - destruct (add_core c s o amount) as [[L [A _]] [B _]]. eapply inv_votes_same; eauto.
+  - destruct (slash_core s os) as [[L [A _]] [B _]]. eapply inv_votes_same; eauto.
   - exact IH.
-  - destruct (gov_core s os) as [[_ [A _]] [B _]]. unfold inv_votes. rewrite A, B. exact IH.
+  - destruct (gov_core s os) as [[L [A _]] [B _]]. eapply inv_votes_same; eauto.
   - (* unbond: the cursor is kept, or the oracle has no stored vote *)
     unfold unbond. destruct (zmem o (proposal s)); prj; [exact IH|].
     destruct (aget Z.eqb o (oracles s)) as [rec|]; prj; [|exact IH].
     destruct (o_online rec); prj; [exact IH|]. destruct (o_unb rec); prj; [exact IH|].
-    destruct (c_unbond_del c) eqn:D; [|destruct IH as [I1 I2]; split; prj; assumption].
+    destruct (c_unbond_del c) eqn:D; [|exact IH].
     unfold safe_votes in SF. destruct SF as [SF|SF]; [congruence|]. cbn [safe_unbond] in SF.
-    destruct IH as [I1 I2]. split; prj; [|exact I2].
-    intros k a v G Hv. destruct (I1 _ _ _ G Hv) as [e [Ge Le]].
+    destruct IH as [I1 I2]. split; [|exact I2]. unfold cursor in *. prj.
+    intros k a v G Hv. pose proof (I1 _ _ _ G Hv).
     assert (o <> v). { intro; subst. apply SF. exists k, a. auto. }
-    rewrite (aget_adel_other Z.eqb zeqb_spec) by assumption. eauto.
-  - destruct (edit_core s o b) as [[_ [A _]] [B _]]. unfold inv_votes. rewrite A, B. exact IH.
-  - cbn [fst]. destruct (mature_core s) as [[_ [A _]] [B _]]. unfold inv_votes. rewrite A, B. exact IH.
-  - destruct (confirm_core s kind key ext) as [[[_ [A _]] [B _]] _]. unfold inv_votes. rewrite A, B. exact IH.
-  - destruct (add_batch_core s) as [[[_ [A _]] [B _]] _]. unfold inv_votes. rewrite A, B. exact IH.
-  - destruct (add_bcall_core s) as [[[_ [A _]] [B _]] _]. unfold inv_votes. rewrite A, B. exact IH.
+    rewrite cur_adel_other by assumption. assumption.
+  - destruct (edit_core s o b) as [[L [A _]] [B _]]. eapply inv_votes_same; eauto.
+  - cbn [fst]. destruct (mature_core s) as [[L [A _]] [B _]]. eapply inv_votes_same; eauto.
+  - destruct (confirm_core s kind key ext) as [[[L [A _]] [B _]] _]. eapply inv_votes_same; eauto.
+  - destruct (add_batch_core s) as [[[L [A _]] [B _]] _]. eapply inv_votes_same; eauto.
+  - destruct (add_bcall_core s) as [[[L [A _]] [B _]] _]. eapply inv_votes_same; eauto.
   - exact IH.
-  - destruct (end_block_core s newset) as [[_ [A _]] [B _]]. unfold inv_votes. rewrite A, B. exact IH.
+  - destruct (end_block_core s newset) as [[L [A _]] [B _]]. eapply inv_votes_same; eauto.
+  - (* export + import: the cursors are rebuilt from the stored votes *)
+    cbn [fst]. destruct IH as [I1 I2]. unfold inv_votes, cursor, export_import. prj. split; [|exact I2].
+    intros k a v G Hv. unfold rebuild_cursors.
+    destruct (rebuild_cursors_spec c (last_obs s) (atts s) []) as [_ C].
+    eapply C; [apply (aget_In keq keq_spec); exact G | exact Hv].
 Qed.
 
 Lemma guarded_weaken : forall c (safe1 safe2 : st -> op -> Prop),
@@ -1160,9 +1303,9 @@ Qed.
 Lemma guarded_all : forall c (safe : st -> op -> Prop), (forall s x, safe s x) -> forall h s, guarded c safe s h.
 Proof. intros c safe A h. induction h as [|x r IH]; intro s; cbn; auto. Qed.
 
-Lemma inv_votes_reach : forall c h, guarded c (safe_votes c) init h -> inv_votes (run c init h).
+Lemma inv_votes_reach : forall c h, guarded c (safe_votes c) init h -> inv_votes c (run c init h).
 Proof.
-  intros c h G. apply (run_inv_guarded inv_votes (safe_votes c) c).
+  intros c h G. apply (run_inv_guarded (inv_votes c) (safe_votes c) c).
   - intros. apply inv_votes_step; assumption.
   - split; [intros ? ? ? F; discriminate F | intros ? ? F; discriminate F].
   - exact G.
@@ -1173,7 +1316,7 @@ Theorem votes_distinct_guarded : forall c h k a,
   aget keq k (atts (run c init h)) = Some a -> NoDup (a_votes a).
 Proof.
   intros c h k a G Ha.
-  assert (I : inv_votes (run c init h)).
+  assert (I : inv_votes c (run c init h)).
   { apply inv_votes_reach. eapply guarded_weaken; [|exact G]. intros s x S. right. exact S. }
   destruct I as [_ I2]. eapply I2; eauto.
 Qed.
@@ -1184,7 +1327,7 @@ Theorem votes_distinct_fixed : forall c h k a,
   aget keq k (atts (run c init h)) = Some a -> NoDup (a_votes a).
 Proof.
   intros c h k a F Ha.
-  assert (I : inv_votes (run c init h)).
+  assert (I : inv_votes c (run c init h)).
   { apply inv_votes_reach. apply guarded_all. intros s x. left. exact F. }
   destruct I as [_ I2]. eapply I2; eauto.
 Qed.
